@@ -26,7 +26,7 @@ class Obl:
 
 
 class State:
-    __slots__ = ("env", "pc", "mem", "colls", "frame", "gen", "exist", "tags")
+    __slots__ = ("env", "pc", "mem", "colls", "frame", "gen", "exist", "tags", "tiles")
 
     def __init__(self):
         self.env = {}
@@ -37,6 +37,7 @@ class State:
         self.gen = {}
         self.exist = ()    # atoms that are local existentials (loop-havoc symbols)
         self.tags = ()     # free-form markers collected along the path
+        self.tiles = {}    # coll seq -> base buffer: elements are views tiling disjoint ranges of that buffer
 
     def clone(self):
         s = State()
@@ -48,6 +49,7 @@ class State:
         s.gen = self.gen
         s.exist = self.exist
         s.tags = self.tags
+        s.tiles = dict(self.tiles)
         return s
 
 
@@ -704,6 +706,15 @@ class Interp:
             return self.subst_ty(st, t["inner"])
         return tyi
 
+    def ty_key_subst(self, st, tyi):
+        """lifetime-free key of a type with the current generic substitution applied; references kept"""
+        t = self.F.types[tyi]
+        if t["k"] == "param" and t["name"] in st.gen:
+            return self.F.ty_key(st.gen[t["name"]])
+        if t["k"] == "ref":
+            return "&" + self.ty_key_subst(st, t["inner"])
+        return self.F.ty_key(tyi)
+
     def ev_Tuple(self, e, st):
         return self.seq(e["fields"], st, lambda s, vs: [(s, "val", TupV(vs))])
 
@@ -1151,12 +1162,9 @@ class Interp:
             return r
         if e.get("trait") and e["gargs"]:
             selfty = self.subst_ty(st, e["gargs"][0])
-            t = self.F.types[selfty]
-            if t["k"] in ("adt", "param") or True:
-                tgt = self.F.find_impl_item(e["trait"], selfty, e["name"])
-                if tgt and tgt in self.F.bodies:
-                    # do not pick a trait default when the self type is still a parameter
-                    return tgt
+            tgt = self.find_impl_method(st, e, selfty)
+            if tgt and tgt in self.F.bodies:
+                return tgt
             # dispatch on the receiver's abstract value
         if e.get("trait") and args:
             v = args[0]
@@ -1169,6 +1177,36 @@ class Interp:
         f = e["fn"]
         if f in self.F.bodies:
             return f
+        return None
+
+    def find_impl_method(self, st, e, selfty):
+        """impl item for a trait method call: the impl must match the self type and the trait's own
+        generic arguments (TryFrom<&Packet> vs TryFrom<Unknown>)"""
+        F = self.F
+        key = F.ty_key(selfty)
+        for im in F.impl_ix.get((e["trait"], key), []):
+            ta = im["trait_args"]
+            okm = True
+            for j in range(1, len(ta)):
+                if j >= len(e["gargs"]) or not isinstance(e["gargs"][j], int):
+                    break
+                want = self.ty_key_subst(st, e["gargs"][j])
+                have = F.ty_key(ta[j])
+                if F.types[F.strip_ref(ta[j])]["k"] == "param":
+                    continue
+                if want != have:
+                    okm = False
+                    break
+            if not okm:
+                continue
+            for it in im["items"]:
+                if it["name"] == e["name"]:
+                    return it["def"]
+        tr = F.traits.get(e["trait"])
+        if tr:
+            for it in tr["items"]:
+                if it["name"] == e["name"] and it["has_default"]:
+                    return it["def"]
         return None
 
     def call(self, e, st, args):
